@@ -3,7 +3,7 @@
 drawn, only getters are called.  Events are appended to the worker's trace:
 
   ["c05cov",  day, method, site, eqg, comp, k, emission_id, repairable, start_day, rate,
-              stored_before, stored_after, emitting, own_probability, [[p, result], ...]]
+              stored_before, stored_after, emitting, own_probability, [[p, result], ...], own_temporal_probability]
                                                             every Emission.check_spatial_cov call; the last two:
                                                             this emission's coverage probability for the method and
                                                             the Bernoulli draws made inside the call
@@ -104,7 +104,8 @@ def install(job):
             EVENTS.append(["c05cov", CTXT["day"], method, LOC["site"], LOC["eqg"], LOC["comp"], serial(self),
                            self._emissions_id, bool(self._repairable), di(self._start_date), float(self._rate),
                            None if before is None else int(before), None if after is None else int(after),
-                           bool(self.is_emitting()), float(self._tech_spat_cov_probs[method]), draws])
+                           bool(self.is_emitting()), float(self._tech_spat_cov_probs[method]), draws,
+                           float(self._tech_temp_cov_probs[method])])
         except Exception as e:  # never disturb the run
             EVENTS.append(["c05-error", repr(e)])
         return out
